@@ -272,6 +272,7 @@ pub fn meta(args: &Args) -> Value {
         "floor": {"quick": 60, "thorough": 3000},
         "case_timeout_s": 40,
         "hang_is_violation": false,
+        "crash_is_violation": false,
         "budget_quick": args.cases(500, 30000),
     })
 }
